@@ -30,6 +30,11 @@ def parsePlan (rs : List Nat) (s : String) : Option Plan :=
 
 def allOk : Plan := { start := .ok, rcpt := fun _ => .ok, body := .ok, bodyRc := fun _ => .ok, commit := .ok }
 
+def _root_.Driver.C09sortIns (x : String) : List String → List String
+  | [] => [x]
+  | y :: r => if x ≤ y then x :: y :: r else y :: Driver.C09sortIns x r
+def _root_.Driver.C09sort (l : List String) : List String := l.foldr Driver.C09sortIns []
+
 def natList (l : List Nat) : String := ",".intercalate (l.map toString)
 
 def showEv : Ev → Option String
@@ -54,6 +59,21 @@ def handle : List String → String
         let planAt : Nat → Plan := fun i => (ps[i]?).getD allOk
         let evs := run maxTries k (dsn == "1") planAt (maxTries + 1) 0 ⟨rs, fun _ => 0⟩
         " ".intercalate (evs.filterMap showEv)
+      | none => "bad-op"
+    | _, _ => "bad-op"
+  | "outcomes" :: mt :: kind :: dsn :: rcpts :: plans :: _ =>
+    -- terminal outcomes only, canonically ordered: the queue on top of the real remote target
+    match mt.toNat?, (rcpts.splitOn ",").mapM String.toNat? with
+    | some maxTries, some rs =>
+      match (plans.splitOn ";").mapM (parsePlan rs) with
+      | some ps =>
+        let k := if kind == "p" then Kind.partialD else Kind.atomic
+        let planAt : Nat → Plan := fun i => (ps[i]?).getD allOk
+        let evs := run maxTries k (dsn == "1") planAt (maxTries + 1) 0 ⟨rs, fun _ => 0⟩
+        let cnt (f : Nat → List Ev → Nat) : String :=
+          ",".intercalate (rs.map (fun r => s!"{r}={f r evs}"))
+        let rm := if evs.any (fun e => match e with | .removed => true | _ => false) then "removed" else "NOT-REMOVED"
+        s!"c:{cnt commitCount} r:{cnt reportCount} {rm}"
       | none => "bad-op"
     | _, _ => "bad-op"
   | _ => "bad-op"
